@@ -5,6 +5,15 @@
 // one statement at the top of the function; their truth per activation is known from the source: the k-th call
 // of `work` (k = 0..5) has odd = (k % 2 == 1), big = (k >= 3); `ident` called from `main` has (false, false).
 
+// position discriminator: number of completed `tick` calls; read by the harness through /proc/<pid>/mem so that
+// a stop in the k-th loop iteration is told apart from the same address in another iteration
+static mut KTICK: u64 = 0;
+
+#[inline(never)]
+fn tick() {
+    unsafe { KTICK = KTICK.wrapping_add(1) }
+}
+
 #[inline(never)]
 fn ident<T: Copy>(x: T, odd_a: bool, big_a: bool) -> T {
     let (odd, big) = (odd_a, big_a);
@@ -38,6 +47,7 @@ fn main() {
     let mut acc = 0u64;
     let mut i = 0u64;
     while i < 6 { // BP:loop_head
+        tick();
         let r = work(i, i % 2 == 1, i >= 3); // BP:loop_call
         acc = acc.wrapping_add(r); // BP:loop_acc
         i += 1; // BP:loop_inc
